@@ -71,6 +71,34 @@ Fixpoint unescape (s : str) : str :=
       end
   end.
 
+(* the replacement loop of expand_recursive, expand.rs:130-155; [rec] is the recursive call
+   (expansion of a variable's value with the extended `seen` list) *)
+Definition missing_value (pol : policy) (k : str) : res str :=
+  match pol with
+  | PError => Err (EMissing k)
+  | PIgnore | PDefer => Ok (S_ "${" ++ k ++ S_ "}")
+  | PEmpty => Ok []
+  end.
+
+Fixpoint subst (r : fenv) (pol : policy) (rec : list str -> str -> res str)
+         (seen : list str) (segs : list seg) : res str :=
+  match segs with
+  | [] => Ok []
+  | Lit l :: t => match subst r pol rec seen t with Ok x => Ok (l ++ x) | e => e end
+  | Ref k :: t =>
+      if mem_str k seen then Err (ECycle k)                                 (* :136-138 *)
+      else
+        match (match alookup k r with
+               | Some v => rec (k :: seen) v                                  (* :142 *)
+               | None => missing_value pol k
+               end) with
+        | Ok v => match subst r pol rec seen t with Ok x => Ok (v ++ x) | e => e end
+        | e => e
+        end
+  end.
+
+Definition keeps_escapes (pol : policy) : bool := match pol with PDefer => true | _ => false end.
+
 Section Exp.
   Variable r : fenv.          (* the variable map *)
   Variable pol : policy.
@@ -83,29 +111,8 @@ Section Exp.
       match scan (S (length f)) 0 None f [] false with
       | Fuel => Fuel | Err e => Err e | Panic n => Panic n
       | Ok (segs, esc) =>
-        let fix go (segs : list seg) : res str :=
-          match segs with
-          | [] => Ok []
-          | Lit l :: t => match go t with Ok x => Ok (l ++ x) | e => e end
-          | Ref k :: t =>
-              if mem_str k seen then Err (ECycle k)                                 (* :136-138 *)
-              else
-                match (match alookup k r with
-                       | Some v => expand_rec fuel (k :: seen) v                      (* :142 *)
-                       | None =>
-                           match pol with
-                           | PError => Err (EMissing k)
-                           | PIgnore | PDefer => Ok (S_ "${" ++ k ++ S_ "}")
-                           | PEmpty => Ok []
-                           end
-                       end) with
-                | Ok v => match go t with Ok x => Ok (v ++ x) | e => e end
-                | e => e
-                end
-          end in
-        match go segs with
-        | Ok x => Ok (if esc && negb (match pol with PDefer => true | _ => false end)
-                      then unescape x else x)
+        match subst r pol (expand_rec fuel) seen segs with
+        | Ok x => Ok (if esc && negb (keeps_escapes pol) then unescape x else x)
         | e => e
         end
       end
